@@ -73,7 +73,9 @@ pub fn arg_poly(r: &mut Rng) -> (f64, &'static str) {
 }
 
 pub fn arg_log(r: &mut Rng) -> (f64, &'static str) {
-    match r.below(10) {
+    match r.below(12) {
+        10 => (f64::from_bits(r.below(1 << 52).max(1)), "v_subnormal"),
+        11 => (f64::MIN_POSITIVE * r.pick(&[1.0, 2.0, 1.5, 1024.0]), "v_smallest_normals"),
         0 => (1.0, "v_one"),
         1 => (ulps(1.0, r.int(-50, 50)), "v_ulps_of_one"),
         2 => (7.0, "suite_point"),
